@@ -618,6 +618,25 @@ func (f *HistFamily) observeProofs(x *Exec, prop string, insts []*inst, md *hist
 					if err := x.VerifyAcc(other.cfg.Name(), other.acc, hs, got, false); err != nil {
 						x.Report(prop, "verifier rejects a prover's proof: "+other.cfg.Class(), fmt.Sprintf("%s rejects proof from %s for slots %v: %v", other.cfg.Name(), name, order, err))
 					}
+					// the map forest also accepts targets written in the coordinates of its allocated
+					// height; exercised for the argument snapshots (C17), acceptance is not required
+					if other.m != nil {
+						if tr := other.m.TotalRows; tr > L.R && tr <= 63 {
+							alt := u.Proof{Targets: make([]uint64, len(got.Targets)), Proof: got.Proof}
+							okT := true
+							for i, t := range got.Targets {
+								var ok bool
+								if alt.Targets[i], ok = ref.Translate(t, L.R, tr); !ok {
+									okT = false
+								}
+							}
+							if okT {
+								if err := x.VerifyAcc(other.cfg.Name()+"[allocated-row targets]", other.acc, hs, alt, false); err != nil {
+									x.Note("map forest rejects targets given in allocated rows")
+								}
+							}
+						}
+					}
 				}
 			}
 		}
